@@ -8,7 +8,6 @@
 /* ghost for C13: number of in-place swaps applied to the caller's buffer */
 const void *g_user_buf; int g_user_swaps;
 extern long long g_decoded_nbytes;   /* ghost: bytes the request decodes to */
-long long g_rw_count;                 /* ghost: element count handed to the last ncmpio_read_write */
 #define IS_TYPE_VALUE(t) ((t) == MPI_BYTE || (t) == MPI_CHAR || (t) == MPI_SIGNED_CHAR || (t) == MPI_UNSIGNED_CHAR || (t) == MPI_SHORT || \
     (t) == MPI_UNSIGNED_SHORT || (t) == MPI_INT || (t) == MPI_UNSIGNED || (t) == MPI_FLOAT || (t) == MPI_DOUBLE || (t) == MPI_LONG_LONG_INT || \
     (t) == MPI_UNSIGNED_LONG_LONG || (t) == MPI_LONG)
@@ -74,16 +73,19 @@ __CPROVER_ensures(__CPROVER_return_value != NC_ERANGE)
 int ncmpio_read_write(NC *ncp, int rw_flag, int coll_indep, MPI_Offset offset, MPI_Offset buf_count, MPI_Datatype buf_type, void *buf, int buftype_is_contig)
 __CPROVER_requires(g_coll_n >= 0 && g_coll_n < G_COLL_MAX - 1 && g_io_n >= 0 && g_io_n < G_IO_MAX - 1)
 __CPROVER_requires(ncp->put_size >= 0 && ncp->get_size >= 0 && WF_NC_STATS_LOW(ncp) && g_nwrites >= 0 && g_nwrites < 1000)
-__CPROVER_assigns(ncp->put_size, ncp->get_size, GH_COLL, GH_IO, g_rw_count)
-__CPROVER_ensures(g_rw_count == buf_count)
+__CPROVER_assigns(ncp->put_size, ncp->get_size, GH_COLL, GH_IO, GH_TYPES)
+__CPROVER_assigns(buf != NULL && rw_flag == NC_REQ_RD: __CPROVER_object_whole(buf))
+/* the transfer call carries data exactly when the request does */
+__CPROVER_ensures(IMPLIES(buf_count > 0 && __CPROVER_return_value == NC_NOERR, g_io_n == __CPROVER_old(g_io_n) + 1 && g_io_count[__CPROVER_old(g_io_n)] > 0)) /*@nonempty_request_transfers_data*/
+__CPROVER_ensures(IMPLIES(buf_count <= 0 && g_io_n > __CPROVER_old(g_io_n), g_io_count[__CPROVER_old(g_io_n)] == 0)) /*@empty_request_transfers_nothing*/
+__CPROVER_ensures(GH_TYPES_SAME) /*@C17_datatypes_balanced*/
 __CPROVER_ensures(ncp->put_size >= __CPROVER_old(ncp->put_size) && ncp->put_size <= __CPROVER_old(ncp->put_size) + ((long long)1 << 41) &&
                   ncp->get_size >= __CPROVER_old(ncp->get_size) && ncp->get_size <= __CPROVER_old(ncp->get_size) + ((long long)1 << 41))
 __CPROVER_ensures(g_io_n >= __CPROVER_old(g_io_n) && g_io_n <= __CPROVER_old(g_io_n) + 1 && g_nwrites >= __CPROVER_old(g_nwrites) && g_nwrites <= __CPROVER_old(g_nwrites) + 1)
 __CPROVER_ensures(IMPLIES(__CPROVER_old(g_coll_n) > 0, g_coll_kind[0] == __CPROVER_old(g_coll_kind[0])) && IMPLIES(__CPROVER_old(g_coll_n) > 1, g_coll_kind[1] == __CPROVER_old(g_coll_kind[1])))
-__CPROVER_ensures(IMPLIES(g_io_failed && !__CPROVER_old(g_io_failed), __CPROVER_return_value != NC_NOERR && __CPROVER_return_value != NC_ERANGE))
+__CPROVER_ensures(IMPLIES(g_io_failed && !__CPROVER_old(g_io_failed), __CPROVER_return_value != NC_NOERR && __CPROVER_return_value != NC_ERANGE)) /*@C11_io_failure_reported*/
 __CPROVER_ensures(IMPLIES(__CPROVER_old(g_io_failed), g_io_failed))
-__CPROVER_ensures(g_coll_n == __CPROVER_old(g_coll_n) + ((coll_indep == NC_REQ_COLL && ncp->nprocs > 1) ? 1 : 0))
-__CPROVER_ensures(IMPLIES(buf_count == 0 && !(coll_indep == NC_REQ_COLL && ncp->nprocs > 1), g_io_n == __CPROVER_old(g_io_n)))
+__CPROVER_ensures(g_coll_n == __CPROVER_old(g_coll_n) + ((coll_indep == NC_REQ_COLL && ncp->nprocs > 1) ? 1 : 0)) /*@C08_one_collective_transfer_in_collective_mode*/
 __CPROVER_ensures(__CPROVER_return_value != NC_ERANGE)
 ;
 #endif
